@@ -166,6 +166,10 @@ def check_election(ctx, case, max_runs):
             continue
         e = out.value
         ctx.count("elections_checked")
+        if tie is not None and cfg.get("tiebreak") is None:
+            ctx.fail(f"{cfg['rule']}: candidates of equal score straddle the last seat, no tiebreak was requested, and a result "
+                     "was returned (equal scores cannot be reported as tied)", c2, {"tie": sorted(tie), "outcome": canon.outcome_c(e)})
+            continue
         s0 = e.election_states[0]
         if dict(s0.scores) != sc:
             ctx.fail(f"{cfg['rule']}: round-0 scores differ from the definition", c2,
